@@ -8,6 +8,7 @@ mod gen;
 mod names_drv;
 mod rdata_drv;
 mod reader_drv;
+mod rrl_drv;
 mod server_drv;
 mod tsiglib_drv;
 mod writer_drv;
@@ -30,6 +31,7 @@ fn main() {
         "names" => names_drv::main(&args[1..]),
         "zone" => zone_drv::main(&args[1..]),
         "catalog" => catalog_drv::main(&args[1..]),
+        "rrl" => rrl_drv::main(&args[1..]),
         "zonefile" => zonefile_drv::main(&args[1..]),
         d => {
             eprintln!("unknown driver {}", d);
